@@ -506,3 +506,69 @@ def undo_extract_method(relpath, tree, notes=None, used_elsewhere=None):
   if notes is not None:
     notes.extend(out)
   return out
+
+
+def _dotted_node(e):
+  while isinstance(e, ast.Attribute):
+    e = e.value
+  return isinstance(e, ast.Name)
+
+
+def undo_callable_aliases(relpath, tree, notes=None):
+  """`f = module.Function` / `f = self.Method` followed by `f(..)`: a local
+  that merely names a callable (assigned once from a dotted name, read only
+  as the callee of calls, not known to the reference) is read as the dotted
+  name at its call sites.  Only the analysed tree changes."""
+  ref = roles.reference().get(relpath) or {}
+  done = []
+  for q, fn in roles.functions(tree).items():
+    known = set((ref.get(q) or {}).get('locals', {})) | set((ref.get(q) or {}).get('params', []))
+    own = list(_own_nodes(fn))
+    assigns = {}
+    bad = set(roles.params(fn))
+    for x in own:
+      if isinstance(x, ast.Assign) and len(x.targets) == 1 and isinstance(x.targets[0], ast.Name):
+        assigns.setdefault(x.targets[0].id, []).append(x)
+      elif isinstance(x, ast.Name) and isinstance(x.ctx, (ast.Store, ast.Del)):
+        pass
+      elif isinstance(x, (ast.Global, ast.Nonlocal)):
+        bad.update(x.names)
+    stores = {}
+    for x in own:
+      if isinstance(x, ast.Name) and isinstance(x.ctx, (ast.Store, ast.Del)):
+        stores[x.id] = stores.get(x.id, 0) + 1
+    callee_ids = {id(c.func) for c in own if isinstance(c, ast.Call)}
+    # names read inside nested functions / lambdas keep their alias
+    nested_reads = {n_.id for g in ast.walk(fn) if isinstance(g, FUNC + (ast.Lambda,)) and g is not fn
+                    for n_ in ast.walk(g) if isinstance(n_, ast.Name)}
+    for name, asg in assigns.items():
+      if name in bad or name in known or len(asg) != 1 or stores.get(name, 0) != 1 or name in nested_reads:
+        continue
+      v = asg[0].value
+      if not (isinstance(v, ast.Attribute) and _dotted_node(v)):
+        continue
+      reads = [x for x in own if isinstance(x, ast.Name) and x.id == name and isinstance(x.ctx, ast.Load)]
+      if not reads or not all(id(x) in callee_ids for x in reads):
+        continue
+      # the base of the dotted name must not be rebound in the function
+      base = v
+      while isinstance(base, ast.Attribute):
+        base = base.value
+      if stores.get(base.id, 0) and base.id not in roles.params(fn):
+        continue
+      for c in own:
+        if isinstance(c, ast.Call) and isinstance(c.func, ast.Name) and c.func.id == name:
+          c.func = ast.copy_location(clone(v), c.func)
+      for holder in ast.walk(fn):
+        for f_ in ('body', 'orelse', 'finalbody'):
+          body = getattr(holder, f_, None)
+          if isinstance(body, list) and asg[0] in body:
+            body.remove(asg[0])
+            if not body:
+              body.append(ast.Pass())
+      done.append('%s: local %s in %s names a callable, read as %s' % (
+          relpath, name, q, ast.unparse(v)))
+    ast.fix_missing_locations(fn)
+  if notes is not None:
+    notes.extend(done)
+  return done
